@@ -229,7 +229,8 @@ func runC08(env *lib.Env, rep *lib.Report) {
 	paths := []string{"direct", "sqltext"}
 	ops := []string{"insert", "update"}
 	journeys := []string{"cache->flush(tiny cache)->restart", "crash-recovery-from-log", "multi-page table: updates of first/middle/last rows, flush, eviction, re-selection, restart",
-		"long SQL text: 40-row INSERTs of multi-byte strings shifted byte by byte across the scanner's refill boundaries"}
+		"long SQL text: 40-row INSERTs of multi-byte strings shifted byte by byte across the scanner's refill boundaries",
+		"table of 60 rows (15 leaves) under an 8-page cache, all pages clean: updates of the first, a middle and the last row, read back at once, after a flush and after restart"}
 	rep.Bounds["schemas"] = fmt.Sprintf("%d (all orders of 1..3 columns (thorough: 1..4) over int, bigint, varchar, boolean)", len(schemas))
 	rep.Bounds["column names"] = "k0,k1,..; and (schemas of >= 2 columns, journeys 0 and 1) ab, AB, Ab, aB - names that differ only in letter case"
 	rep.Bounds["supply paths"] = paths
@@ -247,6 +248,14 @@ func runC08(env *lib.Env, rep *lib.Report) {
 				c08LongText(c)
 			} else {
 				c.Tag("journey-3-is-varchar-sqltext-insert-only")
+			}
+			return
+		}
+		if journey == 4 {
+			if op == "update" && len(types) == 1 {
+				c08WideTable(c, types[0], path)
+			} else {
+				c.Tag("journey-4-is-update-of-one-column-schemas-only")
 			}
 			return
 		}
@@ -452,6 +461,75 @@ func c08Compare(w *world, expect [][]any, when string) bool {
 		}
 	}
 	return true
+}
+
+// c08WideTable: a table with more leaves than the page cache has slots. After a flush every page is clean; an
+// UPDATE of one row then scans on through more pages than the cache holds, so the page it changed has to stay put
+// (it is dirty) while clean pages come and go around it.
+func c08WideTable(c *lib.Ctx, typ, path string) {
+	w := newWorld(c, worldOpt{Cache: 8})
+	defer func() { w.destroy() }()
+	if err := w.exec("CREATE TABLE v (id int, " + colDDL(mCol{"k0", typ}) + ")"); err != nil {
+		w.failErr("create-failed", "CREATE TABLE v", err)
+		return
+	}
+	var expect [][]any
+	for k := 0; k < 60; k++ {
+		v, l := c08Default(typ, k)
+		if err := w.exec(fmt.Sprintf("INSERT INTO v VALUES (%d, %s)", k, l)); err != nil {
+			w.failErr("insert-failed", "seed row", err)
+			return
+		}
+		expect = append(expect, []any{int64(k), v})
+		if k%2 == 1 && !w.tick() {
+			return
+		}
+	}
+	if !w.tick() || !c08Compare(w, expect, "seeded 60-row table") {
+		return
+	}
+	c.NonTrivial()
+	c.Class(fmt.Sprintf("%s/%s/wide-table", typ, path))
+	var cands []c08Val
+	for _, v := range c08Values(typ, false) {
+		if s, isStr := v.v.(string); !v.ok || isStr && len(s) == 1 || path == "sqltext" && (v.sqlLit == "" || v.v == nil) {
+			continue
+		}
+		cands = append(cands, v)
+	}
+	for i, pos := range []int{0, 31, 59, 1} {
+		v := cands[i%len(cands)]
+		var err error
+		if path == "direct" {
+			q := sql.UpdateStatementSearched{TableName: "v", Set: []sql.SetClause{{ObjectColumn: "k0", UpdateSource: v.v}},
+				Where: sql.WhereClause{SearchCondition: sql.Predicate{ComparisonPredicate: sql.ComparisonPredicate{LHS: sql.ColumnReference{ColumnName: "id"}, CompOp: sql.EQ, RHS: int64(pos)}}}}
+			err = guard(func() error { return EvaluateUpdate(q, w.sess.RelationService) })
+		} else {
+			err = w.exec(fmt.Sprintf("UPDATE v SET k0 = %s WHERE id = %d", v.sqlLit, pos))
+		}
+		if err != nil {
+			w.failErr("valid-value-refused", fmt.Sprintf("UPDATE row %d = %s", pos, clipAny(v.v)), err)
+			return
+		}
+		expect[pos][1] = v.v
+		if !c08Compare(w, expect, fmt.Sprintf("right after updating row %d to %s", pos, clipAny(v.v))) {
+			return
+		}
+		if !w.tick() || !c08Compare(w, expect, fmt.Sprintf("after the flush that follows the update of row %d", pos)) {
+			return
+		}
+	}
+	rs := w.sess.RelationService
+	if err := guard(func() error { return w.sess.Close() }); err != nil {
+		w.failErr("close-failed", "Session.Close", err)
+		return
+	}
+	storage.VerifMarkClosed(rs)
+	w = w.recoverFrom(w.image(), false)
+	if c.Failed() {
+		return
+	}
+	c08Compare(w, expect, "after clean restart")
 }
 
 // c08MultiPage: a table of 12 rows (root + several leaves) whose first, middle
